@@ -76,3 +76,52 @@ Theorem C34_ready_never_before : forall h s ch tg, run rt_enabled rt_step rt_ini
   In (ch, tg) (r_subs s) -> (r_cur s < tg)%N /\ memn ch (r_closed s) = false.
 Proof. exact ready_never_before. Qed.
 Print Assumptions C34_ready_never_before.
+
+(* Second tie (DESIGN 3.5, docs/gotrans.md): Begin / End / Owner of CheckAndSet and the non-blocking
+   methods of MultiRSW and the methods of ReadyTarget as translated from
+   internal/rsync/{cas,multir_singlew,ready_target}.go on this run are the corresponding cases of
+   cas_step_obs / mrsw_step_obs / rt_step, on the fields both sides have, the returned observation,
+   the wait-sets after the reported cond.Broadcast() calls and the channels closed by the reported close() calls.  Premise: the package's
+   error constructor never returns nil (fmt.Errorf is known not to). *)
+From RQ Require Import Lib.GoLib Gen.Cas Gen.Mrsw Gen.ReadyTarget Proofs.C34_Gen.
+Theorem C34_source_derived_eq : forall (E : Type) (now : Z) (errc : option E) (errorf : string -> option E -> string -> Z -> E)
+    (mkerr : string -> option E) (sprintf : string -> Z -> string),
+  (forall m, mkerr m <> None) ->
+  (forall s start t o,
+     gen_core (fst (CheckAndSet_Begin E now errc errorf (rep_cas s start) o)) = cas_core (fst (cas_step_obs s (CBegin t o))) /\
+     obs_of_err (snd (CheckAndSet_Begin E now errc errorf (rep_cas s start) o)) = snd (cas_step_obs s (CBegin t o))) /\
+  (forall s start t,
+     gen_core (CheckAndSet_End (rep_cas s start)) = cas_core (fst (cas_step_obs s (CEnd t))) /\
+     Ok = snd (cas_step_obs s (CEnd t))) /\
+  (forall s start, CheckAndSet_Owner (rep_cas s start) = c_owner s) /\
+  (forall s t,
+     m_core (absorb_m s (fst (MultiRSW_BeginRead E mkerr (rep_m s))) []) = m_core (fst (mrsw_step_obs s (MBeginRead t))) /\
+     obs_of_err (snd (MultiRSW_BeginRead E mkerr (rep_m s))) = snd (mrsw_step_obs s (MBeginRead t))) /\
+  (forall s t,
+     let r := MultiRSW_EndRead (rep_m s) in
+     m_core (absorb_m s (fst (fst r)) (snd r)) = m_core (fst (mrsw_step_obs s (MEndRead t))) /\
+     obs_of_unit (snd (fst r)) = snd (mrsw_step_obs s (MEndRead t))) /\
+  (forall s t o,
+     let r := MultiRSW_BeginWrite E mkerr sprintf (rep_m s) o in
+     m_core (absorb_m s (fst r) []) = m_core (fst (mrsw_step_obs s (MBeginWrite t o))) /\
+     obs_of_res (snd r) = snd (mrsw_step_obs s (MBeginWrite t o))) /\
+  (forall s t,
+     let r := MultiRSW_EndWrite (rep_m s) in
+     m_core (absorb_m s (fst (fst r)) (snd r)) = m_core (fst (mrsw_step_obs s (MEndWrite t))) /\
+     obs_of_unit (snd (fst r)) = snd (mrsw_step_obs s (MEndWrite t))) /\
+  (forall s t o,
+     let r := MultiRSW_UpgradeToWriter E mkerr sprintf (rep_m s) o in
+     m_core (absorb_m s (fst r) []) = m_core (fst (mrsw_step_obs s (MUpgrade t o))) /\
+     obs_of_res (snd r) = snd (mrsw_step_obs s (MUpgrade t o))) /\
+  (forall s tg,
+     let r := ReadyTarget_Subscribe N nat (r_next s) N.leb (rep_rt s) tg in
+     fst (fst r) = rep_rt (rt_step s (RSub tg)) /\ snd (fst r) = r_next s /\
+     (closes (snd r) ++ r_closed s)%list = r_closed (rt_step s (RSub tg))) /\
+  (forall s ch, ReadyTarget_Unsubscribe N nat Nat.eqb (rep_rt s) ch = rep_rt (rt_step s (RUnsub ch))) /\
+  (forall s i,
+     let r := ReadyTarget_Signal N nat N.leb (rep_rt s) i in
+     fst r = rep_rt (rt_step s (RSignal i)) /\
+     (closes (snd r) ++ r_closed s)%list = r_closed (rt_step s (RSignal i))) /\
+  (forall s, ReadyTarget_Reset N nat 0%N (rep_rt s) = rep_rt (rt_step s RReset)).
+Proof. exact gen_rsync_eq. Qed.
+Print Assumptions C34_source_derived_eq.
